@@ -42,7 +42,7 @@ T_Events ==
   \/ IsEvent("svc.fail") /\ DispatchFail(E.sys)
   \/ IsEvent("svc.msg") /\ NoChange
   \/ IsEvent("sess.reset") /\ NoChange
-  \/ IsEvent("sess.nextid") /\ NoChange
+  \/ IsEvent("sess.nextid") /\ NextId(E.id)
   \/ IsEvent("sess.save") /\ NoChange
   \/ IsEvent("sess.lookup") /\ NoChange
   \/ IsEvent("sess.delete") /\ NoChange
